@@ -59,13 +59,13 @@ VARIANTS = [
     V("twin: if fill_value is not None", ("C05",), "", "core.py", '            if fill_value is None:\n                raise ValueError("Filling is required but fill_value is None.")', '            if not (fill_value is not None):\n                raise ValueError("Filling is required but fill_value is None.")', expect="silent"),
     # ---------------- R-PURE / R-ARGS / R-GLOBAL / R-MEMO (C13, C14)
     V("idx = flat (no copy)", ("C13", "C03"), "R-PURE", "core.py", '        idx = flat.astype(np.intp)', '        idx = flat', must_mention="_factorize_single"),
-    V("scan combine adds into its right operand (out=)", ("C03", "C13"), "R-PURE", "aggregations.py", '            array=agg.binary_op(reindexed[..., right.group_idx], right.array),', '            array=agg.binary_op(reindexed[..., right.group_idx], right.array, out=right.array),', must_mention="scan_binary_op"),
+    V("scan combine adds into its right operand (out=)", ("C03", "C13", "C10"), "R-PURE", "aggregations.py", '            array=agg.binary_op(reindexed[..., right.group_idx], right.array),', '            array=agg.binary_op(reindexed[..., right.group_idx], right.array, out=right.array),', must_mention="scan_binary_op"),
     V("in-place NaN substitution", ("C13",), "R-PURE", "aggregate_flox.py", '    result = func(group_idx, np.where(isnull(array), fillna, array), *args, **kwargs)', '    array[isnull(array)] = fillna\n    result = func(group_idx, array, *args, **kwargs)', must_mention="_nan_grouped_op"),
     V("array.sort() in a kernel", ("C13",), "R-PURE", "aggregate_flox.py", '    aux = group_idx\n', '    aux = group_idx\n    array.sort()\n', must_mention="_np_grouped_op"),
     V("var wrapper subtracts in place", ("C13",), "R-PURE", "aggregate_npg.py", '    array = array - first[..., group_idx]', '    array -= first[..., group_idx]', must_mention="_var_std_wrapper"),
     V("registry shallow-copied", ("C14",), "R-ARGS", "aggregations.py", 'agg_ = copy.deepcopy(AGGREGATIONS[func])', 'agg_ = copy.copy(AGGREGATIONS[func])', must_mention="AGGREGATIONS"),
     V("registry not copied", ("C14",), "R-ARGS", "aggregations.py", 'agg_ = copy.deepcopy(AGGREGATIONS[func])', 'agg_ = AGGREGATIONS[func]', must_mention="AGGREGATIONS"),
-    V("user Aggregation shallow-copied", ("C14",), "R-ARGS", "aggregations.py", '        agg = copy.deepcopy(func)', '        agg = copy.copy(func)', must_mention="func"),
+    V("user Aggregation shallow-copied", ("C14", "C13"), "R-ARGS", "aggregations.py", '        agg = copy.deepcopy(func)', '        agg = copy.copy(func)', must_mention="func"),
     V("xarray _rechunk without copy", ("C14",), "R-ARGS", "xarray.py", '    obj = obj.copy(deep=True)\n', '', must_mention="_rechunk"),
     V("get_parts result mutated", ("C14",), "R-MEMO", "dask_array_ops.py", '    keys, parts, out_chunks = get_parts(tuple(split_every.items()), chunks)\n', '    keys, parts, out_chunks = get_parts(tuple(split_every.items()), chunks)\n    parts[0].append([0])\n', must_mention="get_parts"),
     V("twin: np.where replaced by copy + masked store", ("C13",), "", "aggregate_flox.py", '    result = func(group_idx, np.where(isnull(array), fillna, array), *args, **kwargs)', '    filled = array.copy()\n    filled[isnull(array)] = fillna\n    result = func(group_idx, filled, *args, **kwargs)', expect="silent"),
@@ -148,6 +148,28 @@ VARIANTS = [
       '        reindexer = partial(reindex_intermediates, agg=agg, unique_groups=unique_groups, array_type=reindex.array_type)\n        x_chunk = deepmap(lambda x: x if x["groups"].shape[-1] == len(unique_groups) else reindexer(x), x_chunk)', must_mention="bypass"),
     V("twin: re-indexer bound to a local first", ("C02",), "", "core.py", '        x_chunk = deepmap(\n            partial(\n                reindex_intermediates,\n                agg=agg,\n                unique_groups=unique_groups,\n                array_type=reindex.array_type,\n            ),\n            x_chunk,\n        )',
       '        reindexer = partial(reindex_intermediates, agg=agg, unique_groups=unique_groups, array_type=reindex.array_type)\n        x_chunk = deepmap(reindexer, x_chunk)', expect="silent"),
+    # ---------------- R-ALIGNED / R-AUTOREFUSE (C19), R-MEMO key granularity (C14), R-CODELABELS (C07, C02)
+    V("scan entry point loses its alignment refusal", ("C19",), "R-ALIGNED", "core.py", '    if by_.shape[-1] != array.shape[-1]:\n        raise ValueError(\n            "`array` and `by` must have the same length along the scanned axis. "', '    if False:\n        raise ValueError(\n            "`array` and `by` must have the same length along the scanned axis. "', must_mention="groupby_scan"),
+    V("auto plan: arg-reduction shortcut moved above the partial-axis check", ("C19",), "R-AUTOREFUSE", "core.py",
+      '        if nax != by.ndim:\n            logger.debug("_choose_method: choosing \'map-reduce\'")\n            return "map-reduce"\n\n        if _is_arg_reduction(agg) and preferred_method == "blockwise":\n            return "cohorts"\n',
+      '        if _is_arg_reduction(agg) and preferred_method == "blockwise":\n            return "cohorts"\n\n        if nax != by.ndim:\n            logger.debug("_choose_method: choosing \'map-reduce\'")\n            return "map-reduce"\n', must_mention="cohorts"),
+    V("auto plan: partial-axis check dropped", ("C19",), "R-AUTOREFUSE", "core.py", '        if nax != by.ndim:\n            logger.debug("_choose_method: choosing \'map-reduce\'")\n            return "map-reduce"\n\n', '', expect="silent"),
+    V("dtype promotion memoised with an untyped key", ("C14",), "R-MEMO", "xrdtypes.py", '        dtype = np.result_type(dtype, fill_value)\n    return dtype\n',
+      '        dtype = _promote_for_fill_value(dtype, fill_value)\n    return dtype\n\n\n@functools.lru_cache\ndef _promote_for_fill_value(dtype: np.dtype, fill_value) -> np.dtype:\n    return np.result_type(dtype, fill_value)\n', must_mention="typed"),
+    V("twin: dtype promotion memoised with typed=True", ("C14",), "", "xrdtypes.py", '        dtype = np.result_type(dtype, fill_value)\n    return dtype\n',
+      '        dtype = _promote_for_fill_value(dtype, fill_value)\n    return dtype\n\n\n@functools.lru_cache(typed=True)\ndef _promote_for_fill_value(dtype: np.dtype, fill_value) -> np.dtype:\n    return np.result_type(dtype, fill_value)\n', expect="silent"),
+    V("lazy blocks factorized against the caller's expected_groups", ("C07", "C02"), "R-CODELABELS", "core.py", '            for by_, expect_ in zip(by_chunked, found_groups)\n', '            for by_, expect_ in zip(by_chunked, expected_groups)\n', must_mention="found_groups"),
+    # ---------------- R-UNPERMUTE (C18, C01)
+    V("quantiles evaluated in sorted q order, result gathered with the same permutation", ("C18", "C01"), "R-UNPERMUTE", "aggregate_flox.py", '            kwargs["group_idx"] = group_idx\n\n    if (len(uniques) == size) and (uniques == np.arange(size, like=array)).all():\n        # The previous version of this if condition\n        #     ((uniques[1:] - uniques[:-1]) == 1).all():\n        # does not work when group_idx is [1, 2] for e.g.\n        # This happens during binning\n        op(array, inv_idx, axis=axis, dtype=dtype, out=out, **kwargs)\n    else:\n        out[..., uniques] = op(array, inv_idx, axis=axis, dtype=dtype, **kwargs)\n\n    return out\n', '            kwargs["group_idx"] = group_idx\n            qorder = np.argsort(np.atleast_1d(q), kind="stable")\n            kwargs["q"] = np.atleast_1d(q)[qorder]\n\n    if (len(uniques) == size) and (uniques == np.arange(size, like=array)).all():\n        op(array, inv_idx, axis=axis, dtype=dtype, out=out, **kwargs)\n    else:\n        out[..., uniques] = op(array, inv_idx, axis=axis, dtype=dtype, **kwargs)\n\n    if kwargs.get("q", None) is not None:\n        out = out[qorder]\n    return out\n', must_mention="qorder"),
+    V("twin: quantiles evaluated in sorted q order, result restored with the inverse permutation", ("C18", "C01"), "", "aggregate_flox.py", '            kwargs["group_idx"] = group_idx\n\n    if (len(uniques) == size) and (uniques == np.arange(size, like=array)).all():\n        # The previous version of this if condition\n        #     ((uniques[1:] - uniques[:-1]) == 1).all():\n        # does not work when group_idx is [1, 2] for e.g.\n        # This happens during binning\n        op(array, inv_idx, axis=axis, dtype=dtype, out=out, **kwargs)\n    else:\n        out[..., uniques] = op(array, inv_idx, axis=axis, dtype=dtype, **kwargs)\n\n    return out\n', '            kwargs["group_idx"] = group_idx\n            qorder = np.argsort(np.atleast_1d(q), kind="stable")\n            kwargs["q"] = np.atleast_1d(q)[qorder]\n\n    if (len(uniques) == size) and (uniques == np.arange(size, like=array)).all():\n        op(array, inv_idx, axis=axis, dtype=dtype, out=out, **kwargs)\n    else:\n        out[..., uniques] = op(array, inv_idx, axis=axis, dtype=dtype, **kwargs)\n\n    if kwargs.get("q", None) is not None:\n        out = out[np.argsort(qorder)]\n    return out\n', expect="silent"),
+    # ---------------- R-ACCDTYPE (C20, C11), R-BLOCKLABELS (C16)
+    V("block accumulators take the input dtype", ("C20", "C11"), "R-ACCDTYPE", "aggregations.py", 'dtypes._normalize_dtype(int_dtype, np.result_type(array_dtype, final_dtype), int_fv)', 'dtypes._normalize_dtype(int_dtype, array_dtype, int_fv)', must_mention="accumulator"),
+    V("twin: accumulator dtype bound to a local first", ("C20", "C11"), "", "aggregations.py", '    agg.dtype = {\n        "user": dtype,', '    acc = np.result_type(array_dtype, final_dtype)\n    agg.dtype = {\n        "user": dtype,', expect="silent"),
+    V("per-block labels always sorted", ("C16",), "R-BLOCKLABELS", "core.py", '            labels_of = _unique if sort else (lambda labels: pd.unique(labels.reshape(-1)))\n', '            labels_of = _unique\n', must_mention="sort"),
+    # ---------------- R-FINALDEPS (C11)
+    V("final dtype widened for the fill only when min_count > 0", ("C11",), "R-FINALDEPS", "aggregations.py", '        dtype_ or agg.dtype_init["final"], array_dtype, agg.preserves_dtype, fill_value\n', '        dtype_ or agg.dtype_init["final"], array_dtype, agg.preserves_dtype, fill_value if min_count > 0 else None\n', must_mention="min_count"),
+    # ---------------- R-BITMASK (C09)
+    V("incidence matrix summed in uint8", ("C09",), "R-BITMASK", "core.py", '        return csc_array((data, (rows, cols)), dtype=bool, shape=(nchunks, nlabels))', '        return csc_array((data, (rows, cols)), shape=(nchunks, nlabels)).astype(bool)', must_mention="uint8"),
     # ---------------- R-LOOPSTORE (C09, C19)
     V("cohort map overwrites a repeated block set", ("C09", "C19"), "R-LOOPSTORE", "core.py", '        merged_cohorts[chunk] = sorted(merged_cohorts.get(chunk, []) + cohort)', '        merged_cohorts[chunk] = cohort', must_mention="merged_cohorts"),
     V("twin: cohort map merges under an explicit membership test", ("C09", "C19", "C02"), "", "core.py", '        merged_cohorts[chunk] = sorted(merged_cohorts.get(chunk, []) + cohort)',
